@@ -46,11 +46,14 @@ def run(args):
         extra_rules += rules_table.check_smalladj(rep, "C06")
     except ImportError:
         rep.notes.append("R-TABLE (smallAdj = structure constants) not built yet")
-    try:
-        from . import rules_jet
-        extra_rules += rules_jet.check(rep, "C06")
-    except ImportError:
-        rep.notes.append("R-JET (Taylor/closed-form arms meet) not built yet")
+    from . import rules_jet
+    JAC = {("manif::SE2TangentBase", "ljac"), ("manif::SE2TangentBase", "rjacinv"), ("manif::SE2TangentBase", "ljacinv"),
+           ("manif::SO3TangentBase", "ljac"), ("manif::SO3TangentBase", "ljacinv"), ("manif::SE3TangentBase", "fillQ"),
+           ("manif::SGal3TangentBase", "ljac")}
+    nf, no = rules_jet.check(rep, "C06", JAC)
+    rep.floor("jet_switch_functions", nf, 7)
+    rep.floor("jet_observables", no, 20)
+    extra_rules.append("C06.c R-JET: for the precision switches of SE2 ljac/rjacinv/ljacinv, SO3 ljac/ljacinv, SE3 fillQ and SGal3 ljac the closed-form arm has no negative-order term and the two arms differ by less than 1e-7 (double) / 1e-3 (float) at the switch-over; R-DIV on their small-angle sides")
     rep.rules = [
         "C06.b R-DA: every Jacobian-typed local returned by rjac/ljac/rjacinv/ljacinv/adj/smallAdj (and fillQ/fillE's Ref output) has all cells written on every path; scratch blocks are read only after they were written",
         "C06.b R-BLOCK / R-NOALIAS on the same functions",
